@@ -26,7 +26,7 @@ META = {
     'shards': {'quick': 8, 'thorough': 16},
     'quotas_fixed': ['x-delete', 'x-truncate'],
     'quotas': {
-        'quick': {'label:erroneous': 1000, 'erroneous:lexer-error': 100, 'erroneous:parser-error': 1000,
+        'quick': {'mutation:exotic-char:erroneous': 80, 'class:include-with-directory-part-and-wellformed-decoy': 50, 'label:erroneous': 1000, 'erroneous:lexer-error': 100, 'erroneous:parser-error': 1000,
                   'erroneous-in-included-file': 100, 'erroneous:raised': 1000, 'x-delete': 70, 'x-truncate': 70,
                   'via-from_mal_spec': 100, 'erroneous:compiled-twice': 300},
         'thorough': {'label:erroneous': 200000, 'erroneous:lexer-error': 10000, 'erroneous:parser-error': 100000,
@@ -35,7 +35,7 @@ META = {
     },
 }
 CASES = {'quick': 5000, 'thorough': 400000}
-SECONDS = {'quick': 60, 'thorough': 600}
+SECONDS = {'quick': 300, 'thorough': 600}
 
 
 def run_program(files, root, via_graph=False, repeat=0):
@@ -45,7 +45,8 @@ def run_program(files, root, via_graph=False, repeat=0):
     d = tempfile.mkdtemp(prefix='c17-', dir=os.getcwd())
     try:
         for n, t in files.items():
-            with open(os.path.join(d, n), 'w', encoding='utf-8') as f:
+            os.makedirs(os.path.dirname(os.path.join(d, n)), exist_ok=True)
+            with open(os.path.join(d, n), 'w', encoding='utf-8', newline='') as f:
                 f.write(t)
         outcome = None
         shared = MalCompiler() if (len(files) + len(root)) % 2 == 0 else None
@@ -171,6 +172,16 @@ def run(rng, res, tier, shard, nshards):
             m2, t2 = malfuzz.mutate(rng, f2[w2])
             f2[w2] = t2
             mclass += '+' + m2
+        if where != root and rng.random() < 0.25:
+            # the include statement names a path with a directory part: the file next to the main file is the one
+            # that is included (and it is malformed); the unmutated text sits at the literal path as a decoy
+            stmt = 'include "%s"' % where
+            if any(stmt in t for t in f2.values()):
+                sub = rng.choice(['inc', 'common', 'lib/mal'])
+                for n2 in list(f2):
+                    f2[n2] = f2[n2].replace(stmt, 'include "%s/%s"' % (sub, where))
+                f2['%s/%s' % (sub, where)] = files[where]
+                res.count('class:include-with-directory-part-and-wellformed-decoy')
         via = rng.random() < 0.1
         first, label = check_program(f2, root, mclass.split('+')[0], where, res, via_graph=via)
         res.case(digest(f2) if label == 'erroneous' else None)
